@@ -19,7 +19,8 @@ from sched import Scheduler
 
 LOOKUPS = {'get', 'getitem', 'contains', 'read'}
 MISS = {'get': None, 'getitem': '!KeyError', 'contains': 'F', 'read': '!KeyError'}
-WRITES = {'set', 'add', 'incr', 'pop', 'delete', 'delitem', 'touch', 'clear', 'expire', 'evict', 'cull', 'push', 'pull'}
+WRITES = {'set', 'add', 'incr', 'pop', 'delete', 'delitem', 'touch', 'clear', 'expire', 'evict', 'cull', 'push', 'pull',
+          'setitem', 'setdefault', 'popitem', 'update'}
 
 
 def run_concurrent(cfg, preset, programs, schedule, shared=False, retry=True):
@@ -75,6 +76,53 @@ def run_concurrent(cfg, preset, programs, schedule, shared=False, retry=True):
         except Exception:
             pass
         shutil.rmtree(directory, ignore_errors=True)
+
+
+def run_concurrent_layer(cls, cfg, preset, programs, schedule):
+    """the same for Deque / Index: one handle per client on one directory (each client its own
+    Cache object underneath), `lop` lines for DC.Model.Layers"""
+    import layers
+    env = Env.get()
+    env.core.sqlite3._timeout = 0
+    runners = {}
+    base = None
+    try:
+        base = layers.RUNNERS[cls](cfg)
+        pre_lines = [base.cfg_line()]
+        for op in preset:
+            line, res = base.run(op)
+            pre_lines.append(line)
+        cids = sorted(programs)
+        for cid in cids:
+            runners[cid] = layers.RUNNERS[cls](dict(cfg), directory=base.dir)
+        sch = Scheduler(env.rec)
+        lines = {cid: [] for cid in cids}
+
+        def mk(cid):
+            r = runners[cid]
+
+            def prepare():
+                r.cache._con
+
+            def execute(op):
+                line, res = r.run(op)
+                lines[cid].append((line, res, ''))
+                return res
+            return prepare, programs[cid], execute
+        ok = sch.run({cid: mk(cid) for cid in cids}, schedule)
+        env.core.sqlite3._timeout = None
+        state = base.state() if ok else None
+        return {'ok': ok, 'events': sch.events, 'lines': lines, 'state': state, 'trace': sch.trace,
+                'pre_lines': pre_lines, 'steps': sch.step_no, 'state_line': base.state_line()}
+    finally:
+        env.core.sqlite3._timeout = None
+        for r in runners.values():
+            try:
+                r.close()
+            except Exception:
+                pass
+        if base is not None:
+            base.close()
 
 
 def canon_state(st):
@@ -168,7 +216,7 @@ def explain(run, programs, cfg, units=None):
             if got[o].startswith('!Timeout'):
                 continue        # a timed-out call has no effect (C14) and takes no part
             lines.append(linemap[o])
-        lines.append('state')
+        lines.append(run.get('state_line', 'state'))
         spans.append((start, len(lines)))
     ans = corr.run_driver(lines)
     why = []
